@@ -28,7 +28,7 @@ class C15(Check):
     real = ['rxsci.framing.line.frame/unframe, rxsci.framing.length_prefix.frame/unframe (current working tree)', 'RxPY Subject/pipe']
     stubs = ['the sender and the transport (chunk boundaries, truncation)', 'final subscriber']
     assumptions = ['line items contain no newline; length-prefixed items fit the prefix']
-    probe_names = ('concurrent_streams', 'item_at_prefix_sign_limit', 'cut_inside_prefix', 'cut_between_prefix_and_payload', 'empty_segment', 'one_unit_segments', 'empty_item', 'empty_list',
+    probe_names = ('nested_same_operator', 'concurrent_streams', 'item_at_prefix_sign_limit', 'cut_inside_prefix', 'cut_between_prefix_and_payload', 'empty_segment', 'one_unit_segments', 'empty_item', 'empty_list',
                    'truncated', 'swept_all_single_cuts', 'prefix:1', 'prefix:2', 'prefix:4', 'prefix:8', 'order:big', 'line', 'chunk_without_newline')
     quick_cap = 300000
 
@@ -70,6 +70,8 @@ class C15(Check):
                 hot.append(off)
         if rng.random() < 0.2 and n:
             case['concurrent'] = rng.randrange(1 << 30)
+        if framing == 'lp' and rng.random() < 0.2 and n:
+            case['nested'] = rng.randrange(1, 1 << 30)
         case['cuts'] = gen_cuts(rng, stream_len, hot)
         case['truncate'] = rng.randint(0, stream_len) if (stream_len and rng.random() < 0.3) else None
         case['sweep'] = stream_len <= 300 and rng.random() < (0.5 if tier == 'quick' else 0.8)
@@ -169,6 +171,27 @@ class C15(Check):
                     out.add('concurrent', case['framing'], {'stream': i, 'of': len(lists), 'terminal': repr(t_i),
                                                             'expected': [repr(x)[:60] for x in lists[i]][:10], 'got': [repr(x)[:60] for x in got_i][:10]})
                     break
+        if not out.violations and not line_mode and case.get('nested') and items:
+            # a length-prefixed stream tunnelled inside another one, both unframed in ONE synchronous chain: the inner
+            # operator's on_next runs nested inside the outer operator's on_next (re-entrancy of shared scratch state)
+            import rx as _rx
+            rng = random.Random(case['nested'])
+            ips, iorder = rng.choice([1, 2, 4, 8]), rng.choice(['little', 'big'])
+            ok_items = [i for i in items if len(i) < 2 ** (8 * ips)]
+            inner_framed, _ = collect(_rx.from_(ok_items).pipe(lp.frame(prefix_size=ips, byteorder=iorder)))
+            inner_stream = b''.join(inner_framed)
+            outer_items = [c for c in cut(inner_stream, gen_cuts(rng, len(inner_stream), [1, 2, 3, 5]))
+                           if len(c) < 2 ** (8 * case['prefix'])]
+            if b''.join(outer_items) == inner_stream:
+                outer_framed, _ = collect(_rx.from_(outer_items).pipe(lp.frame(prefix_size=case['prefix'], byteorder=case['order'])))
+                outer_stream = b''.join(outer_framed)
+                chunks = cut(outer_stream, gen_cuts(rng, len(outer_stream), [1, 2, 3]))
+                got, term, _ = drive(chunks, _rx.pipe(lp.unframe(prefix_size=case['prefix'], byteorder=case['order']),
+                                                      lp.unframe(prefix_size=ips, byteorder=iorder)))
+                p['nested_same_operator'] += 1
+                if term is None or term[0] != 'completed' or got != ok_items:
+                    out.add('nested', 'lp', {'outer': [case['prefix'], case['order']], 'inner': [ips, iorder], 'terminal': repr(term),
+                                             'expected': [repr(x)[:40] for x in ok_items][:10], 'got': [repr(x)[:40] for x in got][:10]})
         out.steps = runs
         out.ticks = sum(len(c) + 1 for c, _ in schedules)
         out.digest = repr((stream, [v.to_json() for v in out.violations], runs))
